@@ -982,6 +982,11 @@ var fixedTypes = []string{
 	"interface{ interface{} }", "interface{ any }", "interface{ E }", "E", "interface{ interface{ interface{} } }", "interface{ I }",
 	"interface{ interface{ M() } }", "[]interface{ any }", "map[string]interface{ interface{} }", "func(interface{ E }) any",
 	"func(a, b int, s string)", "func(a int, b string) (r string, n int)", "struct{ F0, F1 int; F2 string }",
+	// boundary values: 0 is an array length like any other (the patterns `[0]T`, `[$n]T` with $n bound to 0 elsewhere), the empty
+	// struct / parameter list / result list / method set next to their one-member neighbours
+	"[0][0]int", "[0][2]int", "[2][0]int", "[1][1]int", "map[[0]int][0]string", "map[[0]int][2]string", "map[[2]int][0]string", "map[[1]int][1]string",
+	"func([0]int, [3]string) [0]int", "func([0]int, [3]string, [0]bool)", "func([0]int, [3]string) [3]int", "[0]string", "[0]struct{}", "[1]struct{}",
+	"[0]*int", "*[0]int", "[][0]int", "func() ()", "func(struct{}) struct{}", "struct{ _ int }", "struct{ F0 struct{} }", "interface{ E; I }",
 }
 
 // Near-miss pairs for REPEATED variables: two types that a careless identity test confuses (instantiations of one generic
@@ -1037,6 +1042,21 @@ var pairCat = []struct {
 	{"struct{ lib.T }", "struct{ vlib.T }", true}, {"struct{ gen.L[int] }", "struct{ gen.L[string] }", true},
 	// ... and identical ones: an embedded field and its counterpart spelled through the same name
 	{"struct{ N }", "struct{ N `` }", true}, {"struct{ gen.L[A] }", "struct{ gen.L[int] }", true},
+	// boundary values. A zero-length array is an array type like any other: against every other length over one element type
+	// (only a NEGATIVE length stands for "unknown"), at the top and below every constructor, zero on either side; lengths 0 / 1 / 2
+	{"[0]int", "[1]int", true}, {"[0]int", "[2]int", true}, {"[0]int", "[4]int", true}, {"[1]int", "[2]int", true}, {"[0]string", "[8]string", true},
+	{"[0]byte", "[8]byte", true}, {"[0]int", "[]int", false}, {"[0]int", "[0]string", true}, {"[0]int", "struct{}", true},
+	{"[0][2]int", "[0][3]int", true}, {"[2][0]int", "[2][3]int", true}, {"[0][0]int", "[0][1]int", true}, {"[0][0]int", "[1][0]int", true},
+	{"*[0]int", "*[2]int", true}, {"[][0]int", "[][1]int", false}, {"func([0]int)", "func([1]int)", false}, {"func() [0]int", "func() [3]int", false},
+	{"struct{ _ [0]int; v int }", "struct{ _ [4]int; v int }", true}, {"chan [0]int", "chan [1]int", true}, {"map[[0]int]int", "map[[1]int]int", false},
+	{"map[int][0]int", "map[int][2]int", false}, {"gen.L[[0]int]", "gen.L[[2]int]", true}, {"[0]struct{}", "[1]struct{}", true},
+	{"[0]gen.L[int]", "[3]gen.L[int]", true}, {"[0]lib.T", "[1]lib.T", true}, {"interface{ M([0]int) }", "interface{ M([1]int) }", true},
+	// ... identical zero-length arrays spelled differently
+	{"[0]int", "[0]A", true}, {"[0]interface{}", "[0]any", true}, {"[0]byte", "[0]uint8", true}, {"[0x0]int", "[0]int", true},
+	// the empty struct / parameter list / result list / method set against their one-member neighbours and against one another
+	{"struct{}", "struct{ _ int }", true}, {"struct{}", "struct{ F0 struct{} }", true}, {"struct{}", "interface{}", true}, {"struct{}", "*struct{}", true},
+	{"func()", "func(int)", false}, {"func()", "func() int", false}, {"func()", "func(...int)", false}, {"func()", "func(struct{})", false},
+	{"func()", "func() ()", false}, {"interface{}", "interface{ M() }", true}, {"interface{}", "interface{ E; I }", true}, {"[]struct{}", "[]interface{}", false},
 }
 
 // patterns that bind both members of a pair to one variable
@@ -1084,7 +1104,7 @@ var fixedPats = []string{
 	"pool.N", "pool.Str", "pool.I", "unsafe.Pointer", "chan int", "<-chan int", "chan<- int", "chan $x", "func(func($*_, $x), $*_, $x)",
 	"func($x, func($x) $x) func($x) $x", "struct{*$x; $*_; $x}", "struct{$*_; *$x; $*_; $x; $*_}", "func($*_, $x, $*_, *$x) ($*_, *$x)", "gen.L",
 	"(int)", "[](int)", "func(($x)) $x", "func($*_, [$n]$_, $*_) [$n]int", "func($*_, [$n]$x, $*_) [$n]$x", "func($*_, [$n]$_, $*_, [$n]$_)",
-	"func([$n]$_, $*_, [$n]$_)", "map[[$n]int][$n]string", "[010]int", "[0x10]int", "[0b11]int", "[1_0]int", "[0o17]$x", "[0]int", "[00]int", "*gen.L", "[]gen.L", "func(gen.L) $x", "gen.Pair", "pool.A", "[]pool.A", "pool.AP", "pool.ATa", "func(pool.A) pool.A",
+	"func([$n]$_, $*_, [$n]$_)", "map[[$n]int][$n]string", "[0]$t", "[0][$n]$t", "[$n][0]$t", "map[[0]int][$n]string", "func([0]int, $*_) [$n]$_", "[$n]struct{}", "func(struct{}) $x", "[010]int", "[0x10]int", "[0b11]int", "[1_0]int", "[0o17]$x", "[0]int", "[00]int", "*gen.L", "[]gen.L", "func(gen.L) $x", "gen.Pair", "pool.A", "[]pool.A", "pool.AP", "pool.ATa", "func(pool.A) pool.A",
 }
 
 func main() {
@@ -1158,7 +1178,7 @@ func main() {
 		if strings.Contains(typeExprs[j], "vnest.") || strings.Contains(typeExprs[j], "vroot.") {
 			continue // recorded finding (nested vendor directories): exercised by the direct section only
 		}
-		if j < 70 || (j >= pairFrom && j < pairTo) || (j >= len(fixedTypes)-35 && j < len(fixedTypes)) {
+		if j < 70 || (j >= pairFrom && j < pairTo) || (j >= len(fixedTypes)-57 && j < len(fixedTypes)) {
 			engIdx = append(engIdx, j)
 		}
 	}
